@@ -114,6 +114,15 @@ func (g *gen) newTable(s *gSchema, maxCols int) *gTable {
 					}
 				}
 				c.Opts = append(c.Opts, Opt{Kind: "pk"})
+				// the key option is not always the last one written (seeded change C01-h): sometimes it moves to another
+				// place of the list, sometimes a comment follows it
+				if g.dialect == "mysql" && g.rng.Intn(4) == 0 && len(c.Opts) > 1 {
+					k := g.rng.Intn(len(c.Opts) - 1)
+					c.Opts[k], c.Opts[len(c.Opts)-1] = c.Opts[len(c.Opts)-1], c.Opts[k]
+				}
+				if g.dialect == "mysql" && !g.noComments && g.rng.Intn(6) == 0 {
+					c.Opts = append(c.Opts, Opt{Kind: "comment", Val: "row id"})
+				}
 			}
 			t.Cols = append(t.Cols, c)
 			continue
